@@ -77,6 +77,21 @@ def file_mutations(ctx: Ctx, funcs) -> List[Tuple[FuncInfo, ast.Call, str, str]]
     return out
 
 
+def _lazy_value(ctx: Ctx, fi: FuncInfo, v: Optional[ast.AST]) -> Optional[str]:
+    """Is the expression evaluated lazily (generator function call, generator expression, map/filter/iter)?"""
+    if v is None:
+        return None
+    if isinstance(v, ast.GeneratorExp):
+        return "a generator expression"
+    if isinstance(v, ast.Call):
+        if norm(v.func) in ("map", "filter", "iter", "itertools.chain", "chain", "zip"):
+            return f"a lazy `{norm(v.func)}(...)` iterator"
+        for t in ctx.cg.resolve_call(fi, fi.module, v):
+            if isinstance(t, FuncInfo) and any(isinstance(x, (ast.Yield, ast.YieldFrom)) for x in walk_no_nested(t.node)):
+                return f"the result of generator function {t.qualname}"
+    return None
+
+
 def _is_write_mode(mode: Optional[str]) -> bool:
     return mode is None or any(c in mode for c in "wax+")
 
@@ -184,6 +199,12 @@ def rule_atom(ctx: Ctx) -> RuleResult:
                                                 (d.targets if isinstance(d, ast.Assign) else [d.target]))]
                                 if not defs:
                                     problems.append(f"written value `{a.id}` has no definition in this function")
+                                for d in defs:
+                                    lazy = _lazy_value(ctx, f, d.value)
+                                    if lazy:
+                                        problems.append(f"`{a.id}` is {lazy}: it is evaluated while the file is already "
+                                                        f"open and truncated, so a failure in generation destroys the "
+                                                        f"existing output")
                                 for d in defs:
                                     dn = cfg.stmt_node(d)
                                     if dn not in dom.get(wn, ()):
@@ -567,4 +588,41 @@ def rule_enc1(ctx: Ctx) -> RuleResult:
               "was truncated", call.lineno)
     if rr.instances == 0:
         raise AnalysisError("ENC-1: no text write found on CLI paths")
+    return rr
+
+
+def rule_lookup1(ctx: Ctx) -> RuleResult:
+    """A lookup that selects neither an object nor a list is an error on every path (never a silently empty input)."""
+    from ..paths import enumerate_paths
+    rr = RuleResult("LOOKUP-1", "a lookup result that is not an object or a list raises; every matched file is parsed", floor=2)
+    f = ctx.prog.func("json_to_models/cli.py", "iter_json_file")
+    for p in enumerate_paths(f.node.body):
+        rr.instances += 1
+        yields = any(isinstance(x, (ast.Yield, ast.YieldFrom)) for s in p.stmts() for x in ast.walk(s))
+        ok = yields or p.exit == "raise"
+        rr.ob(f.relpath, f.qualname, p.describe()[:100], "each way through iter_json_file either yields the selected "
+              "samples or raises", DISCHARGED if ok else VIOLATED,
+              "yields" if yields else ("raises" if ok else "returns nothing without raising: a lookup that selects null / a "
+              "scalar is treated as an empty input, the run exits 0 and overwrites the output"), f.node.lineno)
+    # LOAD-2: every path produced for an argument is handed to the selected loader, every time
+    sm = ctx.prog.func("json_to_models/cli.py", "Cli.setup_models_data")
+    loader = sm.params[-1]
+    loops = [n for n in walk_no_nested(sm.node) if isinstance(n, ast.For) and isinstance(n.target, ast.Name) and any(
+        isinstance(c, ast.Call) and norm(c.func) == "process_path" for c in ast.walk(n.iter))]
+    if not loops:
+        raise AnalysisError("LOAD-2: loop over process_path(...) not found in setup_models_data")
+    for lp in loops:
+        pv = lp.target.id
+        for p in enumerate_paths(lp.body):
+            if p.exit == "raise":
+                continue
+            rr.instances += 1
+            called = any(isinstance(c, ast.Call) and isinstance(c.func, ast.Name) and c.func.id == loader and c.args
+                         and norm(c.args[0]) == pv for s in p.stmts() for c in ast.walk(s))
+            rr.ob(sm.relpath, sm.qualname, p.describe()[:100] or f"for {pv} in process_path(...)",
+                  f"every matched path is opened and parsed by the selected loader (`{loader}({pv})`), so an unreadable or "
+                  f"malformed file fails the run wherever it stands", DISCHARGED if called else VIOLATED,
+                  "loader called on this path" if called else
+                  "this path through the loop body skips the loader (cache / early continue): a bad file is never looked at",
+                  lp.lineno)
     return rr
